@@ -272,6 +272,7 @@ func genAll(w *bufio.Writer, seed uint64, tier string) {
 	for _, e := range []int{0, 1} {
 		for _, k := range []int{1, 2, 8} {
 			g.emit("C15 cacherace %d %d", e, k)
+			g.emit("C15 cacherace %d %d rev", e, k)
 		}
 	}
 }
